@@ -193,6 +193,20 @@ theorem family_conj_linear (hc : IsConj cj) (f : Family) (hf : f.conj = true) (a
   have := family_semilinear hc f args t h a x y hl
   simpa [hf] using this
 
+/-- **Polarised fields** (Jones-vector field: 2 components, Jones-matrix field: 4, stored one after
+the other): the elements without polarisation optics apply the family's term to every component
+(`OpIR.denoteBlocks`, what the driver op `C06 denote-family-blocks` evaluates and the harness compares
+with the element's output on vector and tensor wavefronts) — and that is (conjugate-)linear on the
+whole field, for any number `r` of components of any length `n`. -/
+theorem family_semilinear_blocks (hc : IsConj cj) (f : Family) (args : List (Arg K)) (t : Term K)
+    (h : familyTerm f args = some t) (n r : Nat) (a : K) (x y : List K) (hl : x.length = y.length) :
+    denoteBlocks cj t n r (vadd (smul a x) y)
+      = vadd (smul (if f.conj then cj a else a) (denoteBlocks cj t n r x)) (denoteBlocks cj t n r y) := by
+  have := denoteBlocks_semilinear hc t f.conj (family_parity f args t h) n a r x y hl
+  simpa [lincomb, twist] using this
+
+example : denoteBlocks (fun a : ℤ => a) (.mulField [2, 3]) 2 2 [1, 1, 10, 10] = [2, 3, 20, 30] := by decide
+
 /-- the hypotheses are satisfiable: each family accepts some argument list (here: three multi-scale
 levels' worth of empty matrices, a two-part system, a nuller without apodizer). -/
 example : ∃ t : Term ℤ, familyTerm .multiscaleForward [.none, .mat [], .mat [], .vec [], .mat []] = some t := ⟨_, rfl⟩
@@ -237,6 +251,22 @@ theorem family_semilinear_executed (f : Family) (args : List (Arg CDy)) (t : Ter
     map_vadd CDy.scalarHom, map_smul CDy.scalarHom]
   exact denote_semilinear_all ⟨fun a b => map_add _ a b, fun a b => map_mul _ a b, fun a => Complex.conj_conj a⟩
     (t.map CDy.toComplex) f.conj hp a.toComplex (x.map CDy.toComplex) (y.map CDy.toComplex) (by simpa using hl)
+
+/-- The same for what `C06 denote-family-blocks` prints (component-wise application, run at `CDy`). -/
+theorem family_semilinear_blocks_executed (f : Family) (args : List (Arg CDy)) (t : Term CDy)
+    (h : familyTerm f args = some t) (n r : Nat) (a : CDy) (x y : List CDy) (hl : x.length = y.length) :
+    (denoteBlocks CDy.conj t n r (vadd (smul a x) y)).map CDy.toComplex
+      = vadd (smul (if f.conj then (starRingEnd ℂ) a.toComplex else a.toComplex)
+                ((denoteBlocks CDy.conj t n r x).map CDy.toComplex))
+             ((denoteBlocks CDy.conj t n r y).map CDy.toComplex) := by
+  have hp : parity (t.map CDy.toComplex) = some f.conj := by
+    rw [parity_map]; exact family_parity f args t h
+  rw [denoteBlocks_map CDy.scalarHom, denoteBlocks_map CDy.scalarHom, denoteBlocks_map CDy.scalarHom,
+    map_vadd CDy.scalarHom, map_smul CDy.scalarHom]
+  have := denoteBlocks_semilinear (cj := starRingEnd ℂ)
+    ⟨fun a b => map_add _ a b, fun a b => map_mul _ a b, fun a => Complex.conj_conj a⟩
+    (t.map CDy.toComplex) f.conj hp n a.toComplex r (x.map CDy.toComplex) (y.map CDy.toComplex) (by simpa using hl)
+  simpa [lincomb, twist] using this
 
 example : ∃ (t : Term CDy), familyTerm .lyotCore [.mat [[⟨⟨1, 0⟩, ⟨0, 0⟩⟩]], .vec [⟨⟨1, 1⟩, ⟨0, 0⟩⟩], .mat [[⟨⟨3, 2⟩, ⟨1, 0⟩⟩]]] = some t :=
   ⟨_, rfl⟩
